@@ -33,6 +33,7 @@ const (
 	c6forcond  // for n < 6 {A}
 	c6forever  // for {A}
 	c6range    // for _, v := range two {A}
+	c6rangeSel // for _, v := range sel() {A}: sel() is two when n is even and nil when n is odd
 	c6swTag    // switch n % 3 { case 0: A [case 1: B] [default: D] }
 	c6swBool   // switch { case c: A [case c2: B] [default: D] }
 )
@@ -186,7 +187,7 @@ func (g *c6gen) allStmts(size int, c c6ctx) []*c6stmt {
 		}
 	}
 	// loops
-	for _, kd := range []c6kind{c6for3, c6forcond, c6forever, c6range} {
+	for _, kd := range []c6kind{c6for3, c6forcond, c6forever, c6range, c6rangeSel} {
 		kd := kd
 		if g.narrow && kd != c6range {
 			continue
@@ -312,6 +313,10 @@ func (w *c6render) stmt(s *c6stmt, ind string) {
 		w.b.WriteString(ind + "for _, v := range two {\n" + in + "_ = v\n")
 		w.block(s.blocks[0], in)
 		w.b.WriteString(ind + "}\n")
+	case c6rangeSel:
+		w.b.WriteString(ind + "for _, v := range sel() {\n" + in + "_ = v\n")
+		w.block(s.blocks[0], in)
+		w.b.WriteString(ind + "}\n")
 	case c6swTag, c6swBool:
 		if s.kind == c6swTag {
 			w.b.WriteString(ind + "switch " + w.fl.tag + " {\n")
@@ -349,7 +354,7 @@ func (w *c6render) stmt(s *c6stmt, ind string) {
 // c6usesConst: the program contains a condition, loop bound or switch tag (anything a flavor respells).
 func c6usesConst(bl []*c6stmt) bool {
 	for _, s := range bl {
-		if s.kind >= c6if && s.kind != c6forever && s.kind != c6range {
+		if s.kind >= c6if && s.kind != c6forever && s.kind != c6range && s.kind != c6rangeSel {
 			return true
 		}
 		for _, b := range s.blocks {
@@ -501,8 +506,12 @@ func (it *c6interp) exec(s *c6stmt, base int) c6sig {
 			return it.run(s.blocks[1], base+c6count(s.blocks[0]))
 		}
 		return it.run(s.blocks[2], base+c6count(s.blocks[0])+c6count(s.blocks[1]))
-	case c6for3, c6range:
-		for i := 0; i < 2; i++ {
+	case c6for3, c6range, c6rangeSel:
+		iters := 2
+		if s.kind == c6rangeSel && it.n%2 != 0 { // the range expression is evaluated once, before the loop: nil when n is odd
+			iters = 0
+		}
+		for i := 0; i < iters; i++ {
 			it.fuel--
 			if it.fuel < 0 {
 				return sFuel
@@ -613,7 +622,7 @@ const c6perPkg = 400
 func c6pkgSource(pkg string, bodies []string) string {
 	var b strings.Builder
 	b.WriteString("package " + pkg + "\n\nimport \"fmt\"\n\nvar n int\nvar out []int\nvar two = []int{10, 20}\n\n")
-	b.WriteString("func trace(k int) {\n\tout = append(out, k)\n\tn++\n}\n\nfunc Reset() {\n\tn = 0\n\tout = []int{}\n}\n\nfunc Start(k int) {\n\tn = k\n\tout = []int{}\n}\n\nfunc Out() string {\n\treturn fmt.Sprint(out)\n}\n\n")
+	b.WriteString("func trace(k int) {\n\tout = append(out, k)\n\tn++\n}\n\nfunc sel() []int {\n\tif n%2 == 0 {\n\t\treturn two\n\t}\n\treturn nil\n}\n\nfunc Reset() {\n\tn = 0\n\tout = []int{}\n}\n\nfunc Start(k int) {\n\tn = k\n\tout = []int{}\n}\n\nfunc Out() string {\n\treturn fmt.Sprint(out)\n}\n\n")
 	for i, body := range bodies {
 		fmt.Fprintf(&b, "func F%d() {\n%s}\n\n", i, body)
 	}
@@ -674,7 +683,7 @@ func c6run(r *report.Run) {
 		goEvery = 25
 		nFlavors = 3
 	}
-	r.Rule("all programs of the control-flow mini language (trace/break/continue/return leaves; if, if-else, if-else-if, 3-clause for, condition for, infinite for, range, tagged and tagless switch with 1-2 cases (a single case also with a list of two values) and default absent/first/middle/last; blocks of 1-2 statements; conditions true, n%2==0, n<3; each also written on a single source line) with at most N statement nodes that the reference interpreter finishes, each entered with the counter n = 0, 1 and 3, plus all programs with N+1 nodes over the narrow sub-language {leaves, if / if-else on two conditions, range, tagless switch with one case and optional default}; non-trivial = distinct program containing at least one break/continue/return inside a compound statement")
+	r.Rule("all programs of the control-flow mini language (trace/break/continue/return leaves; if, if-else, if-else-if, 3-clause for, condition for, infinite for, range over a slice, range over a value that is a slice or nil depending on the counter, tagged and tagless switch with 1-2 cases (a single case also with a list of two values) and default absent/first/middle/last; blocks of 1-2 statements; conditions true, n%2==0, n<3; each also written on a single source line) with at most N statement nodes that the reference interpreter finishes, each entered with the counter n = 0, 1 and 3, plus all programs with N+1 nodes over the narrow sub-language {leaves, if / if-else on two conditions, range, tagless switch with one case and optional default}; non-trivial = distinct program containing at least one break/continue/return inside a compound statement")
 	r.Assume("reference interpreter (structured, ~120 lines) is trusted as far as its cross-validation against the Go toolchain reaches: the complete <=4-node layer in every run", "programs the reference does not finish within 1000 steps are dropped (a program it finishes but goatlang does not is a violation)")
 	g := &c6gen{stmts: map[string][]*c6stmt{}, blocks: map[string][][]*c6stmt{}}
 	top := c6ctx{}
